@@ -14,7 +14,8 @@ EXPLANATION = (
     "announce schedules Command::RegisterResend at +1000 with a timer, and the resend handler finds the service (F5 on "
     "my_services); (f) announcement record set.  Decides these mechanisms, not bounded-time liveness or wire spacing."
     " (g) Every `false` result of is_probing_done has put the service on the probe's waiting list."
-    " (h) Every retain on the rerun queue keeps the commands of other kinds (announcement repeats survive a stop_browse). (i) add_interface writes the status after every announce attempt (a stale Announced cannot cover a registry that probes again).")
+    " (h) Every retain on the rerun queue keeps the commands of other kinds (announcement repeats survive a stop_browse). (i) add_interface writes the status after every announce attempt (a stale Announced cannot cover a registry that probes again)."
+    " (j) DnsRegistry::update_hostname restarts (start_time := probe_time) every probe whose records it rewrites.")
 UNDECIDED = ["'reaches the announced state within a bounded time' (liveness)", "actual spacing of probe packets on the wire",
              "several services sharing a host name (value-level interplay of probes)"]
 
